@@ -394,13 +394,15 @@ fn check_vec2(x: f32, y: f32, r: &mut Report) {
     let p = match caught(|| v.to_polar()) { Ok(p) => p, Err(e) => { r.violation(key("to_polar-panic"), e, case()); return; } };
     let len = ((x as f64).powi(2) + (y as f64).powi(2)).sqrt();
     let az = p.az().to_rads() as f64;
-    r.margin("polar-radius", ((p.r() as f64) - len).abs(), 5e-6 * len); r.margin("polar-az", circ_diff(az, (y as f64).atan2(x as f64)), 5e-6);
-    if ((p.r() as f64) - len).abs() > 5e-6 * len { r.violation(key("polar-radius"), format!("to_polar().r() = {}, length {len}", p.r()), case()); }
+    // (below 1.1e-19 the squared length is a subnormal float with an absolute spacing of 1.4e-45: the radius inherits that)
+    let rtol = 5e-6 * len + 1.5e-45 / len;
+    r.margin("polar-radius", ((p.r() as f64) - len).abs(), rtol); r.margin("polar-az", circ_diff(az, (y as f64).atan2(x as f64)), 5e-6);
+    if ((p.r() as f64) - len).abs() > rtol { r.violation(key("polar-radius"), format!("to_polar().r() = {}, length {len}", p.r()), case()); }
     if !(az >= -std::f64::consts::PI - 1e-6 && az <= std::f64::consts::PI + 1e-6) { r.violation(key("polar-az-range"), format!("azimuth {az} outside [-pi,pi]"), case()); }
     if circ_diff(az, (y as f64).atan2(x as f64)) > 5e-6 { r.violation(key("polar-az"), format!("({x},{y}).to_polar().az() = {az}, atan2 = {}", (y as f64).atan2(x as f64)), case()); }
     let back = p.to_cart();
-    r.margin("polar-roundtrip", ((back.x() as f64 - x as f64).abs()).max((back.y() as f64 - y as f64).abs()), 5e-6 * len);
-    if ((back.x() as f64 - x as f64).abs()).max((back.y() as f64 - y as f64).abs()) > 5e-6 * len { r.violation(key("polar-roundtrip"), format!("({x},{y}) -> {p:?} -> {back:?}"), case()); } else { r.nontrivial(); }
+    r.margin("polar-roundtrip", ((back.x() as f64 - x as f64).abs()).max((back.y() as f64 - y as f64).abs()), rtol);
+    if ((back.x() as f64 - x as f64).abs()).max((back.y() as f64 - y as f64).abs()) > rtol { r.violation(key("polar-roundtrip"), format!("({x},{y}) -> {p:?} -> {back:?}"), case()); } else { r.nontrivial(); }
 }
 
 fn check_vec3(x: f32, y: f32, z: f32, r: &mut Report) {
@@ -476,6 +478,23 @@ fn run_angle(cfg: &Cfg) -> ! {
         if a == 0 && b == 0 && c == 0 { return; }
         check_vec3(a as f32 * m, b as f32 * m, c as f32 * m, r);
     }));
+    // near-zero vectors: lengths down to where the squared length is a subnormal float (2-D: 2e-21; 3-D, whose altitude is
+    // derived from the radius: down to 3e-19, the squared length still a normal float)
+    {
+        let small2 = [1e-12f32, 1e-16, 3e-19, 1.2e-19, 5e-20, 1e-20, 2e-21];
+        rep.merge(par_range(cfg, 13 * 13 * 7, |i, r| {
+            let (a, b, m) = ((i as i64 % 13) - 6, (i as i64 / 13 % 13) - 6, small2[(i / 169) as usize]);
+            if a == 0 && b == 0 { return; }
+            // (scaled so that the longest lattice vector has about the stated length)
+            check_vec2(a as f32 * m / 8.0, b as f32 * m / 8.0, r);
+        }));
+        let small3 = [1e-12f32, 1e-16, 3e-19];
+        rep.merge(par_range(cfg, 9 * 9 * 9 * 3, |i, r| {
+            let (a, b, c, m) = ((i as i64 % 9) - 4, (i as i64 / 9 % 9) - 4, (i as i64 / 81 % 9) - 4, small3[(i / 729) as usize]);
+            if (a == 0 && b == 0 && c == 0) || a * a + b * b + c * c < 9 { return; }
+            check_vec3(a as f32 * m / 3.0, b as f32 * m / 3.0, c as f32 * m / 3.0, r);
+        }));
+    }
     // mixed magnitudes per component: near-axis / near-pole vectors (aspect ratios up to 1e6)
     let mm = [0.0f32, 1e-6, -1e-4, 3e-4, -1e-2, 0.5, 1.0, -3.0, 1e3];
     rep.merge(par_range(cfg, 9 * 9 * 9, |i, r| {
